@@ -24,6 +24,7 @@
 import PyGqlModel.Lemmas.C05MergeScope
 import PyGqlModel.Props.C06_overlap_memo_complete
 import PyGqlModel.Props.C06_head_memo
+import PyGqlModel.Spec.SchemaChecks
 
 set_option linter.unusedSimpArgs false
 set_option linter.unusedVariables false
@@ -363,11 +364,8 @@ def AliasesNonEmpty (d : Validate.Doc) : Prop :=
 /-- schema fact: only object and interface types carry fields (what `canon_schema.dump_schema` produces) -/
 def FieldOwners (s : SchemaD) : Prop := ∀ T name fd, Exec.fieldOf s T name = some fd → Validate.fieldOf s T name = some fd
 
-/-- computable form of `FieldOwners` -/
-def fieldOwnersB (s : SchemaD) : Bool :=
-  s.types.all fun t => t.fields.isEmpty || t.kind == .object || t.kind == .interface
-
-theorem fieldOwners_of_check (s : SchemaD) (h : fieldOwnersB s = true) : FieldOwners s := by
+/-- `Spec.fieldOwnersB` (evaluated by the driver on the schema of every request: `field_owners`) is sound for `FieldOwners` -/
+theorem fieldOwners_of_check (s : SchemaD) (h : Spec.fieldOwnersB s = true) : FieldOwners s := by
   intro T name fd hf
   unfold Exec.fieldOf at hf
   unfold Validate.fieldOf Validate.isObjOrIface Validate.kindOf
@@ -376,7 +374,7 @@ theorem fieldOwners_of_check (s : SchemaD) (h : fieldOwnersB s = true) : FieldOw
   | some t =>
     simp only [ht] at hf
     have hm : t ∈ s.types := List.mem_of_find?_eq_some ht
-    unfold fieldOwnersB at h
+    unfold Spec.fieldOwnersB at h
     rw [List.all_eq_true] at h
     have := h t hm
     have hne : t.fields.isEmpty = false := by
@@ -445,7 +443,7 @@ def mgDoc (n : Validate.Value) : Validate.Doc :=
                [.field none "a" [⟨"n", .null⟩] [] false 0 [], .spread "F" [],
                 .inline (some "Query") [] 2 [.field (some "k") "o" [] [] true 3 [.field none "x" [] [] false 0 [], .field none "__typename" [] [] false 0 []]]],
              .frag "F" "Query" [] 4 [.field (some "b") "a" [⟨"n", .var "v"⟩] [] false 0 [], .field none "a" [⟨"n", n⟩] [] false 0 []]] }
-example : fieldOwnersB brSchemaQ = true := by decide
+example : Spec.fieldOwnersB brSchemaQ = true := by decide
 example : C06.DocChecksMemo brSchemaQ (mgDoc .null) := ⟨by decide, by decide⟩
 example : ∀ r ∈ Validate.Rule.all, C06.SilentM brSchemaQ Validate.Fixes.all r (mgDoc .null) := by
   have h : ∀ r ∈ Validate.Rule.all, C06.Silent brSchemaQ Validate.Fixes.all r (mgDoc .null) := by
